@@ -145,7 +145,9 @@ SchedStep(st, fr) ==
          ELSE LET d == IF nd.a > 0 THEN nd.a ELSE (W(fr.v) % 2) + 1       \* duration_selector
                   st1 == SpawnOnce(st, "trail", d, nd.d, nd.c, 0, "", U)
                   st2 == [PopV(st1) EXCEPT !.nodes[n].n = TopV(st1)] IN
-              IF nd.b \in {1, 3} THEN Push(st2, <<CallN(nd.d, fr.v)>>) ELSE st2
+              (* leading edge: the opener is emitted now and taken out of the trailing-value cell *)
+              IF nd.b \in {1, 3}
+              THEN Push(st2, <<Acq(nd.c), Fr("vset", nd.c, "", NoneV, 0), Rel(nd.c), CallN(nd.d, fr.v)>>) ELSE st2
     [] fr.f = "runone" ->        \* poll task n if it exists and is not finished
          IF fr.n <= Len(st.tasks) /\ st.tasks[fr.n].ph # "done" THEN Push(st, PollFrames(st, fr.n)) ELSE st
     [] fr.f = "runall" ->        \* the prompt executor: sweep all unfinished tasks in creation order (tasks spawned
